@@ -319,14 +319,11 @@ struct Gen
         o.adjacent_bufs = en_adjacent && r.chance(1, 2);
         if (lim.coarse || !en_fine)
         {
+            // The coarse flavours (ASan, valgrind) run the members one after another, in index order or in a seeded
+            // permutation, and never preempt inside a member: there all members share one TLS block (the tools own
+            // per-thread state behind FS), and a legitimate per-thread scratch in thread_local storage would be
+            // clobbered by a preemption.  Interleavings are the business of the tsh flavours.
             o.strategy = r.chance(1, 4) ? sim::ST_SERIAL_IDENTITY : sim::ST_SERIAL_PERM;
-            if (lim.coarse && r.chance(1, 2))
-            {
-                // fibers with switches at mem*/GOMP calls only (that is all the ASan flavour sees)
-                o.strategy = r.chance(1, 2) ? sim::ST_RANDOM_WALK : sim::ST_PCT;
-                o.p_log = (int)r.range(0, 3);
-                o.pct_d = (int)r.range(1, 4);
-            }
             return;
         }
         uint64_t x = r.below(100);
